@@ -248,6 +248,7 @@ func outLast() any                               { return nil }
 // under contract so that its callers can say which code point they hand it
 //@ func (*lexer).writeUnicode
 //@ props C03 C04
+//@ requires [C03 C04] a-code-point-that-has-an-encoding: r > 0 && r <= 1114111 && !(r >= 55296 && r <= 57343)
 //@ modifies l.strBuf
 
 //@ func (*lexer).decodeUnicode
